@@ -218,7 +218,7 @@ class Slot:
         fl += ["-I" + i for i in unit["incs"]]
         fl.append({"checked": "-DSBEPP_ENABLE_ASSERTS_WITH_HANDLER", "unchecked": "-DSBEPP_DISABLE_ASSERTS"}[unit["mode"]])
         fl += [f for f in unit["flags"] if f.startswith("-DVERIF_") or f.startswith("-DW_")]
-        hookopts = [f for f in unit["flags"] if f.startswith("-DSBEPP_VERIF_")]
+        hookopts = [f for f in unit["flags"] if f.startswith("-DSBEPP_VERIF_") or f.startswith("-D__builtin_is_constant_evaluated")]
         if hookopts: fl += ["-DSBEPP_VERIF"] + hookopts   # a unit lowered with a behaviour-selecting hook (H3) is replayed with the same hook (native_handler.cpp defines sbepp_verif_touch)
         if sanitize: fl += ["-fsanitize=address,undefined", "-fno-sanitize-recover=undefined", "-fno-omit-frame-pointer"]
         rc, so, se, dt = sh(fl + ["-c", unit["cpp"], "-o", o + ".tmp"], timeout=600)
